@@ -10,7 +10,7 @@ use std::time::Duration;
 use vcore::{prop_search, Outcome, Run, Search};
 use wire::*;
 
-const RULE: &str = "end-to-end metamorphic: a valid exchange driven by the raw peer (control stream with SETTINGS, extended CONNECT request / response, an application stream echo, a final close capsule with generated code and reason) is run with generated insertions: GREASE and unknown frames (GOAWAY, MAX_PUSH_ID, CANCEL_PUSH, PRIORITY_UPDATE and random non-reserved types of every varint width; payloads that look like frames) on the control stream after SETTINGS; GREASE and unknown non-reserved frames before the request / response HEADERS and on the established session stream; unknown and GREASE setting identifiers inside SETTINGS; unknown capsule types before the close capsule; unidirectional streams of unknown and GREASE types with arbitrary content (also finished or reset). Oracle: exactly the outcome of the exchange without insertions — session established, application stream delivered, no CONNECTION_CLOSE caused by an insertion, and the termination value equals the capsule's code and reason. Non-trivial: >= 1 inserted element with a non-empty payload before a known element; distinct = distinct case";
+const RULE: &str = "end-to-end metamorphic: a valid exchange driven by the raw peer (control stream with SETTINGS, extended CONNECT request / response, an application stream echo, a final close capsule with generated code and reason) is run with generated insertions: GREASE and unknown frames (GOAWAY, MAX_PUSH_ID, CANCEL_PUSH, PRIORITY_UPDATE and random non-reserved types of every varint width; payloads that look like frames) on the control stream after SETTINGS; GREASE and unknown non-reserved frames before the request / response HEADERS and on the established session stream; unknown and GREASE setting identifiers inside SETTINGS; unknown capsule types before the close capsule; unidirectional streams of unknown and GREASE types with arbitrary content (also finished or reset); runs of 1..8 large unknown frames (200..1500 bytes each, payloads that look like frames) on the control or session stream followed by one more delivered in two pieces with 1..3 other connection events (datagrams, GREASE uni streams) in between. Oracle: exactly the outcome of the exchange without insertions — session established, application stream delivered, no CONNECTION_CLOSE caused by an insertion, and the termination value equals the capsule's code and reason. Non-trivial: >= 1 inserted element with a non-empty payload before a known element; distinct = distinct case";
 
 #[derive(Clone, Debug, Serialize, Deserialize)]
 pub enum Ins {
@@ -26,6 +26,26 @@ pub enum Ins {
     Setting(u64, u64),
     /// unidirectional stream of an unknown / GREASE type: (type, content, ending 0 open / 1 fin / 2 reset)
     UniStream(u64, Vec<u8>, u8),
+    /// a run of `count` large unknown (non-GREASE) frames on the control (false) or session (true)
+    /// stream with no known frame in between, followed by one more that is delivered in two pieces
+    /// (cut selector) with `events` other connection events (datagrams / GREASE uni streams) in
+    /// between; `fill` selects payload bytes that would do harm if they were re-read as frames
+    Burst { session_stream: bool, ty: u8, count: u8, size: u16, fill: u8, cut: u16, events: u8 },
+}
+
+fn burst_type(sel: u8) -> u64 {
+    [0x0fu64, 0x2f, 0x4242, (1 << 32) + 7][(sel % 4) as usize]
+}
+
+fn burst_payload(fill: u8, size: usize) -> Vec<u8> {
+    let unit: Vec<u8> = match fill % 5 {
+        0 => vec![0],
+        1 => refcodec::enc_frame(reg::FRAME_SETTINGS, &[]),
+        2 => refcodec::enc_frame(reg::FRAME_DATA, &refcodec::enc_close_capsule(9, b"fake")),
+        3 => refcodec::enc_bi_header_wt(0),
+        _ => (0..251u32).map(|i| (i * 7 + 3) as u8).collect(),
+    };
+    unit.iter().cycle().take(size).cloned().collect()
 }
 
 #[derive(Clone, Debug, Serialize, Deserialize)]
@@ -78,6 +98,7 @@ pub fn case_strategy() -> impl Strategy<Value = Case> {
         2 => (prop_oneof![Just(reg::CAPSULE_DRAIN_WT_SESSION), Just(0u64), (1u64..(1u64 << 62)).prop_filter("not close", |t| *t != 0x2843)], proptest::collection::vec(any::<u8>(), 0..60)).prop_map(|(t, v)| Ins::Capsule(t, v)),
         2 => (unknown_setting, crate::c17_ids()).prop_map(|(i, v)| Ins::Setting(i, v)),
         3 => (unknown_stream_ty, proptest::collection::vec(any::<u8>(), 0..60), 0u8..3).prop_map(|(t, c, e)| Ins::UniStream(t, c, e)),
+        2 => (any::<bool>(), 0u8..4, 1u8..9, 200u16..1500, 0u8..5, any::<u16>(), 1u8..4).prop_map(|(session_stream, ty, count, size, fill, cut, events)| Ins::Burst { session_stream, ty, count, size, fill, cut, events }),
     ];
     (0u8..3, any::<bool>(), proptest::collection::vec(ins, 0..7), any::<u32>(), "[ -~]{0,30}").prop_map(|(flavor, wt_is_server, ins, code, reason)| Case { flavor, wt_is_server, ins, code, reason })
 }
@@ -188,6 +209,28 @@ async fn exec_async(case: Arc<Case>, with_insertions: bool) -> Result<String, Ca
             Ins::Capsule(ty, v) => {
                 let _ = req_send.write_all(&refcodec::enc_frame(reg::FRAME_DATA, &refcodec::enc_capsule(*ty, v))).await;
             }
+            Ins::Burst { session_stream, ty, count, size, fill, cut, events } => {
+                let s = if *session_stream { &mut req_send } else { &mut control };
+                let frame = refcodec::enc_frame(burst_type(*ty), &burst_payload(*fill, *size as usize));
+                for _ in 0..*count {
+                    let _ = s.write_all(&frame).await;
+                }
+                let at = 1 + vcore::pick_idx(*cut, frame.len() - 1);
+                let _ = write_cut(&raw_conn, s, &frame[..at], Duration::from_millis(12)).await;
+                for k in 0..*events {
+                    if k % 2 == 0 {
+                        let _ = raw_conn.send_datagram(refcodec::enc_datagram(session, b"between the pieces").into());
+                    } else if let Ok(mut u) = raw_conn.open_uni().await {
+                        let mut b = refcodec::enc_varint(refcodec::grease(k as u64 + 3));
+                        b.extend_from_slice(b"ignored");
+                        let _ = u.write_all(&b).await;
+                        held.push(Box::new(u));
+                    }
+                    flush_acked(&raw_conn, Duration::from_millis(100)).await;
+                    tokio::time::sleep(Duration::from_millis(8)).await;
+                }
+                let _ = s.write_all(&frame[at..]).await;
+            }
             Ins::UniStream(ty, content, ending) => {
                 if let Ok(mut s) = raw_conn.open_uni().await {
                     let mut b = refcodec::enc_varint(*ty);
@@ -275,6 +318,7 @@ pub fn exec(case: &Case) -> CaseResult {
                 Ins::Capsule(..) => "capsule",
                 Ins::Setting(..) => "setting",
                 Ins::UniStream(..) => "uni-stream",
+                Ins::Burst { .. } => "unknown-burst-split",
             })
             .collect();
         let mut k = kinds.clone();
@@ -293,6 +337,8 @@ pub fn exec(case: &Case) -> CaseResult {
             Ins::Setting(..) => "ins:unknown-setting",
             Ins::UniStream(t, ..) if refcodec::is_grease(*t) => "ins:grease-uni-stream",
             Ins::UniStream(..) => "ins:unknown-uni-stream",
+            Ins::Burst { count, size, .. } if *count as usize * *size as usize >= 4200 => "ins:unknown-burst>=4200B-split",
+            Ins::Burst { .. } => "ins:unknown-burst-split",
         });
     }
     labels.sort();
@@ -300,7 +346,7 @@ pub fn exec(case: &Case) -> CaseResult {
     let nt = case.ins.iter().any(|i| match i {
         Ins::Control(_, _, p) | Ins::BeforeHeaders(_, p) | Ins::Session(_, p) | Ins::Capsule(_, p) => !p.is_empty(),
         Ins::UniStream(_, c, _) => !c.is_empty(),
-        Ins::Setting(..) => true,
+        Ins::Setting(..) | Ins::Burst { .. } => true,
     });
     CaseResult::Pass { nontrivial: nt, labels }
 }
@@ -315,7 +361,7 @@ pub fn run(run: &Run) {
         |c| judge(|| exec(c), false, "C13:e2e:hang"),
         |c| serde_json::to_value(c).unwrap(),
     );
-    for l in ["role:server", "role:client", "ins:control-goaway-family", "ins:control-unknown", "ins:before-headers", "ins:session-frame", "ins:unknown-capsule", "ins:unknown-setting", "ins:grease-uni-stream", "ins:unknown-uni-stream"] {
+    for l in ["role:server", "role:client", "ins:control-goaway-family", "ins:control-unknown", "ins:before-headers", "ins:session-frame", "ins:unknown-capsule", "ins:unknown-setting", "ins:grease-uni-stream", "ins:unknown-uni-stream", "ins:unknown-burst-split", "ins:unknown-burst>=4200B-split"] {
         run.essential(l);
     }
 }
